@@ -207,7 +207,7 @@ def confirm_pretty(prop, v):
         lines = replay.construct_script(pre)
         n0 = len(lines)
         for n in range(1, len(pre['slots']) + 1):
-            lines.append('render %d %s' % (n - 1, '|~|'.join(c.replace('\n', '\\n').replace('\r', '\\r') for c in a['chunks'][n - 1])))
+            lines.append('render %d %s' % (n - 1, '|~|'.join(pretty.enc_piece(c) for c in a['chunks'][n - 1])))
         lines.append('pretty %s s%d' % (mode, a['x']))
         res = replay.run_script(lines, 'feat-' + feat)
         d = res.get(n0 - 1)
